@@ -126,11 +126,15 @@ seed("C05_s2", "C05", "DecayChain.get_m_dep drops the per-event charge of CP-vio
 
 if __name__ == "__main__":
     lines = ["# Seeded changes (confirmed in a scratch worktree: demo passes clean, fails with the change, pinned tests unchanged)", "",
-             "Each patch.diff is relative to the /repo HEAD at the time it was seeded (first round: d64dc15 / 69132ff, second round `_s`: a1f549d).",
-             "On the final /repo HEAD 58 of the 61 still apply with `git -C /repo apply`; C03_m2 and C06_m1 touch code that was repaired later",
-             "(FitFractions.append_int, the cfit normalisation) and conflict; C08_s1 and C04_m2 still apply but no longer manifest, because the repairs d8e81e5",
-             "(set_params skips a mass / width only if it is not floated) and a1f549d (get_min_l cached per object, not by name) removed the mechanisms they relied on.",
-             "All other seeds were re-run against the final checks and the final /repo (regression sweep of 2026-10-01): every one is reported.", "",
+             "Each patch.diff is relative to the /repo HEAD at the time it was seeded (first round: d64dc15 / 69132ff, second round `_s`: a1f549d);",
+             "C04_m1 was rebased onto the repaired Bprime_q2 (same change of the same statement; the original is kept as patch_original_d64dc15.diff).",
+             "On the final /repo HEAD 55 of the 61 apply with `git -C /repo apply`.  Not applicable any more, because a later repair rewrote the statement",
+             "they change: C03_m2 (FitFractions.append_int), C06_m1 (cfit normalisation), C12_s2 (clip of cos(beta) before acos: the extraction is",
+             "2 atan2(|x10|,|x11|) since a129335), C04_m2 and C08_s1 (these two had already stopped manifesting after a1f549d / d8e81e5).  C13_s2 still applies",
+             "but no longer manifests: it routed integer-valued FLOAT spins to the JSON table, whose string keys missed them - repair 9ef724b normalises",
+             "the keys, so the table now returns the exact value (its demo passes with the change applied).",
+             "All other seeds were re-run against the final checks and the final /repo (regression sweeps of 2026-10-01, the last one after the second",
+             "hunt round for every check touched by it): every one is reported.", "",
              "| id | property | change | needs | detection |", "|---|---|---|---|---|"]
     for sid, m in sorted(S.items()):
         d = os.path.join(V, "seeded", sid)
